@@ -26,6 +26,7 @@ def run(tier, seed, scale=1.0):
     t0 = time.time()
     n = max(8, int((48 if tier == "quick" else 900) * scale))
     res = et.explore("stress", seed, n, "tsan", opts=stress_opts(), workers=8)
+    et.foreign_listed_to_inconclusive(res, own, PROP)
     return common.finish(PROP, tier, seed, "exploration", res, own, RULE, t0,
                          min_conclusive=max(4, int(30 * min(1.0, scale))),
                          assumptions=["real threads: a run is one sample of the schedules its seed allows, not a replay",
